@@ -42,6 +42,9 @@ def strip_generics(ty):
     return t if i < 0 else t[:i]
 
 
+_PRIMS = {"bool", "u8", "u16", "u32", "u64", "u128", "usize", "i8", "i16", "i32", "i64", "i128", "isize", "char"}
+
+
 class Body:
     def __init__(self, d):
         self.d = d
@@ -291,6 +294,16 @@ class Body:
         self._defs = d
         return d
 
+    def mut_borrowed(self):
+        if getattr(self, "_mb", None) is None:
+            mb = set()
+            for bi in self.live:
+                for st in self.stmts(bi):
+                    if st["k"] == "=" and st["rv"]["k"] in ("ref", "rawptr") and st["rv"].get("mut") and len(st["rv"]["p"]) == 1:
+                        mb.add(st["rv"]["p"][0])
+            self._mb = mb
+        return self._mb
+
     def lname(self, l):
         return self.locals[l].get("n")
 
@@ -330,6 +343,11 @@ class Body:
         info = self.locals[l]
         if info["k"] == "arg":
             r = ("arg", l, info.get("n"))
+        elif info["k"] == "var" and info["ty"] in _PRIMS and l in self.mut_borrowed():
+            # a scalar user variable whose address is taken mutably (captured by a
+            # closure, passed as &mut) can change behind the single visible
+            # definition: never inline its initialiser
+            r = ("var", l, info.get("n"))
         else:
             ds = self.defs().get(l, [])
             if depth <= 0 or not ds:
